@@ -92,6 +92,7 @@ Record btarget := mkBT {
   bt_srcs : list bsrc;
   bt_lw : list tref;
   bt_lwh : list tref;
+  bt_objects : list tref;                     (* objects: t.extract_all_objects(recursive : true) *)
   bt_deps : list dep }.
 
 Inductive decl := DCustom (c : ctarget) | DBuild (b : btarget).
@@ -117,8 +118,9 @@ Record tinfo := mkInfo {
                                                  [] for custom targets *)
   ti_genhdrs : list path;                     (* get_generated_headers(t) for libraries *)
   ti_linkrec : list (path * list path);       (* what t.get_dependencies_recurse adds, as ti_dep pairs *)
+  ti_allobjs : list path;                     (* the objects t.extract_all_objects(recursive=True) stands for *)
   ti_closure : list path }.                   (* ASSUMED: what the command making t's outputs could open, transitively *)
-Definition empty_info : tinfo := mkInfo [] false [] [] [] [].
+Definition empty_info : tinfo := mkInfo [] false [] [] [] [] [].
 Definition look (tbl : list tinfo) (t : tref) : tinfo := nth t tbl empty_info.
 Definition outs_of (tbl : list tinfo) (t : tref) : list path := map go_path (ti_gouts (look tbl t)).
 
@@ -182,7 +184,7 @@ Definition custom_unit (tbl : list tinfo) (c : ctarget) : bunit :=
   mkUnit (map go_path (ct_outs c)) (custom_ins tbl c) (custom_imp tbl c) [] (custom_reads tbl c).
 
 Definition custom_info (tbl : list tinfo) (c : ctarget) : tinfo :=
-  mkInfo (ct_outs c) false [] [] [] (custom_closure tbl c).
+  mkInfo (ct_outs c) false [] [] [] [] (custom_closure tbl c).
 
 (* ------------------------------------------------------------------ *)
 (* build targets                                                         *)
@@ -304,6 +306,23 @@ Definition is_static (b : btarget) : bool := match bt_kind b with StaticLib => t
 Definition is_shared (b : btarget) : bool := match bt_kind b with SharedLib => true | _ => false end.
 Definition is_lib (b : btarget) : bool := is_static b || is_shared b.
 
+(* Objects that are not compiled for this target but handed to its link or archive step:
+   - build.py:2470-2518: a STATIC library that link_whole's another static library bundles it,
+     self.objects.append(t.extract_all_objects()) (StaticLibrary.link_whole /
+     _bundle_static_library; the same happens for whole libraries that arrive through a
+     declare_dependency) — the library stays in link_whole_targets as well;
+   - objects: t.extract_all_objects(recursive : true).
+   backends.py:569-598 _flatten_object_list (called from generate_target :1117-1118): an
+   ExtractedObjects with recursive=True contributes the flattening of the extracted target's
+   own objects list and then _determine_ext_objs: one object per source (and generated source)
+   of the extracted target, in that target's private directory. *)
+Definition allobjs_of (tbl : list tinfo) (t : tref) : list path := ti_allobjs (look tbl t).
+Definition bundled_objs (tbl : list tinfo) (b : btarget) : list path :=
+  (if is_static b then flat_map (allobjs_of tbl) (eff_lwh b) else [])
+  ++ flat_map (allobjs_of tbl) (bt_objects b).
+Definition link_objs (tbl : list tinfo) (b : btarget) : list path :=
+  map cu_obj (cunits tbl b) ++ bundled_objs tbl b.
+
 (* generate_link :3837-3990: NinjaBuildElement(outname, linker_rule, obj_list) :3969;
    dependencies = [] for a static library (:3911-3915), target.get_dependencies() otherwise
    (:3919); dep_targets = get_dependency_filename(t) for each (:3966; the .symbols file of a
@@ -315,9 +334,9 @@ Definition link_imp (tbl : list tinfo) (b : btarget) : list path :=
 Definition link_uses (tbl : list tinfo) (b : btarget) : list path :=
   if is_static b then [] else flat_map snd (get_dependencies tbl b).
 Definition link_reads (tbl : list tinfo) (b : btarget) : list path :=
-  map cu_obj (cunits tbl b) ++ link_uses tbl b.
+  link_objs tbl b ++ link_uses tbl b.
 Definition link_unit (tbl : list tinfo) (b : btarget) : bunit :=
-  mkUnit [bt_out b] (map cu_obj (cunits tbl b)) (link_imp tbl b) [] (link_reads tbl b).
+  mkUnit [bt_out b] (link_objs tbl b) (link_imp tbl b) [] (link_reads tbl b).
 
 (* generate_shsym :3619-3636: NinjaBuildElement(symname, 'SHSYM', target_file) *)
 Definition shsym_units (b : btarget) : list bunit :=
@@ -338,9 +357,10 @@ Definition build_info (tbl : list tinfo) (b : btarget) : tinfo :=
          [((if is_shared b then bt_sym b else bt_out b),
            (* ASSUMED: a static library is a thin archive (opening it opens its objects); a
               shared library or executable may pull in what its own link opened *)
-           bt_out b :: (if is_static b then map cu_obj (cunits tbl b) else link_uses tbl b))]
+           bt_out b :: (if is_static b then link_objs tbl b else link_uses tbl b))]
          (if is_lib b then generated_headers tbl b else [])
          (if is_static b then dependencies_recurse tbl b else [])
+         (link_objs tbl b)
          (link_uses tbl b).
 
 (* ------------------------------------------------------------------ *)
@@ -410,15 +430,18 @@ Definition valid_project (p : project) : bool :=
 (* The fragment in which the transcription above is claimed FAITHFUL (checked by the harness
    for every project it compares; the theorems do not need it): references resolve to earlier
    declarations of the right sort; sources of build targets that are custom targets have one
-   object per source output; link_with / link_whole name libraries; a static library has no
-   link_whole (object extraction is not modelled); tools that are targets are executables or
-   custom targets.                                                        *)
+   object per source output; link_with names libraries, link_whole static libraries, objects:
+   build targets; tools that are targets are executables or custom targets.                                                        *)
 Inductive sort := SCustom | SBuild (k : tkind).
 Definition decl_sort (d : decl) : sort := match d with DCustom _ => SCustom | DBuild b => SBuild (bt_kind b) end.
 Definition sort_at (pre : list decl) (t : tref) : option sort := option_map decl_sort (nth_error pre t).
 Definition is_some {A} (o : option A) : bool := match o with Some _ => true | None => false end.
 Definition is_libsort (o : option sort) : bool :=
   match o with Some (SBuild StaticLib) | Some (SBuild SharedLib) => true | _ => false end.
+Definition is_staticsort (o : option sort) : bool :=
+  match o with Some (SBuild StaticLib) => true | _ => false end.
+Definition is_buildsort (o : option sort) : bool :=
+  match o with Some (SBuild _) => true | _ => false end.
 Definition is_customsort (o : option sort) : bool := match o with Some SCustom => true | _ => false end.
 Definition is_toolsort (o : option sort) : bool :=
   match o with Some SCustom | Some (SBuild Exe) => true | _ => false end.
@@ -436,8 +459,9 @@ Definition decl_in_fragment (pre : list decl) (tbl : list tinfo) (d : decl) : bo
   match d with
   | DCustom c => forallb (fun t => is_some (sort_at pre t)) (custom_refs c)
   | DBuild b => forallb (bsrc_in_fragment pre tbl) (eff_srcs b)
-                && forallb (fun t => is_libsort (sort_at pre t)) (eff_lw b ++ eff_lwh b)
-                && (negb (is_static b) || match eff_lwh b with [] => true | _ => false end)
+                && forallb (fun t => is_libsort (sort_at pre t)) (eff_lw b)
+                && forallb (fun t => is_staticsort (sort_at pre t)) (eff_lwh b)
+                && forallb (fun t => is_buildsort (sort_at pre t)) (bt_objects b)
   end.
 Fixpoint in_fragment_from (pre : list decl) (tbl : list tinfo) (ds : list decl) : bool :=
   match ds with
